@@ -444,6 +444,35 @@ Proof.
   eapply descend_clean; eauto.
 Qed.
 
+Lemma on_excluded_denotes : forall excl q,
+  clean_path q = true ->
+  (on_excluded excl q <->
+   exists e p, In e excl /\ denotes e p /\ is_prefix p q).
+Proof.
+  intros excl q Hq. unfold on_excluded. split.
+  - intros [e [p [Hin [Hpre Ec]]]]. exists e, p. split; [exact Hin|].
+    split; [|exact Hpre]. split; [|exact Ec].
+    destruct Hpre as [r Er]. apply (clean_path_prefix p r). rewrite <- Er. exact Hq.
+  - intros [e [p [Hin [[_ Ec] Hpre]]]]. exists e, p. auto.
+Qed.
+
+Lemma kept_iff_denoted : forall H excl j ps q v,
+  nodup_keys j = true -> clean_keys j = true ->
+  descend j ps = Some (q, v) -> is_prim v = true ->
+  ((exists e p, In e excl /\ denotes e p /\ is_prefix p q) /\
+   descend (obfuscate_json H excl j) ps = Some (q, v))
+  \/
+  (~ (exists e p, In e excl /\ denotes e p /\ is_prefix p q) /\
+   descend (obfuscate_json H excl j) ps = Some (q, JStr (H (text v)))).
+Proof.
+  intros H excl j ps q v Hnd Hcl Hd Hp.
+  assert (Hq : clean_path q = true) by (eapply descend_clean; eauto).
+  destruct (hidden_or_excluded H excl j ps q v Hnd Hd Hp) as [[Hon E]|[Hon E]].
+  - left. split; [apply on_excluded_denotes; assumption|exact E].
+  - right. split; [|exact E]. intro C. apply Hon.
+    apply on_excluded_denotes; assumption.
+Qed.
+
 Lemma no_cross_exposure_single : forall H e p j ps q v,
   denotes e p ->
   nodup_keys j = true -> clean_keys j = true ->
